@@ -16,7 +16,7 @@ from ..seams.flow import Tok, ProbeFR, ProbeCall
 PROPERTY = "C16"
 LEVEL = "fault_enumeration"
 SWEEP = True
-N_RUNS = {"quick": 300000, "thorough": 400000}
+N_RUNS = {"quick": 300000, "thorough": 1600000}
 RULE = ("each run draws a wrapped probe element (fill/compute with reset, fill/request, run "
         "element), bufsize n in 1..5, reset, buffer_input or buffer_output, yield_on_remainder, a "
         "wrapper (bare FillRequest, FillRequestSeq with pre/post callables around it, Split with "
